@@ -2,7 +2,7 @@ SPECIFICATION Spec
 CONSTANTS
   RealPts <- PtsSigned
   Leaves <- L_Leaves
-  MaxLeaves = 3
+  MaxLeaves = 2
   MaxOps = 2
   UnOps <- L_UnOps
   BinOps <- L_BinOps
